@@ -31,6 +31,9 @@ import (
 
 func main() {
 	os.Setenv("VAXIS_FORCE_XTWINOPS", "1")
+	for _, e := range []string{"COLORTERM", "VAXIS_FORCE_LEGACY_SGR", "VAXIS_FORCE_WCWIDTH", "VAXIS_FORCE_UNICODE", "VAXIS_FORCE_NOZWJ", "VAXIS_DISABLE_NOZWJ", "VAXIS_GRAPHICS", "VAXIS_LOG_LEVEL"} {
+		os.Unsetenv(e)
+	}
 	hx.Main("C03", run)
 }
 
@@ -185,7 +188,7 @@ func (h *H) streamCase(id string, mask uint32, queue int, reports []report, wf b
 
 	r.Case(id)
 	emitBody := func(init string) {
-		r.Emit(fmt.Sprintf("init mask=%d %s", mask, init), "-")
+		r.Emit(fmt.Sprintf("init mask=%d queue=%d %s", mask, queue, init), "-")
 		wfs := "0"
 		if wf {
 			wfs = "1"
